@@ -48,7 +48,7 @@ def plan(tier, seed):
             if o.get('saliency') == 'zeros':
                 o['saliency'] = 'pos'
             iters = int(pick([1, 2, 3, 5, 10, 20])) if kind != 'cbmm' else int(pick([1, 2]))
-            ini = pick(['dirichlet:1', 'dirichlet:0.3', 'blur:0.3', 'onehot', 'neardup'])
+            ini = pick(['dirichlet:1', 'dirichlet:0.3', 'blur:0.3', 'onehot', 'neardup', 'neardup', 'exactdup', 'uniform'])
             if kind == 'cbmm' and r % 2:
                 ini = 'neardup'; N = int(rng.integers(200, 400)); K = 3
             cases.append(dict(kind=kind, cls='gauss', K=K, N=N, D=D, lead=lead, init=ini,
@@ -66,9 +66,24 @@ def perms_for(K, rng):
 
 def run_case(case, R):
     neardup = case['init'] == 'neardup'
-    if neardup:
+    tied = case['init'] if case['init'] in ('exactdup', 'uniform') else None
+    if neardup or tied:
         case = dict(case, init='dirichlet:1')
     s = scen.build(case)
+    if tied and s.init is not None:
+        # exactly tied starts (two identical classes / the uniform start): an implementation without a preferred class index keeps the
+        # tied classes bit-identical, so permuting them changes nothing - any tie breaking by position shows up only here
+        ini = np.array(s.init, dtype=float)
+        if tied == 'uniform':
+            ini[...] = 1.0 / s.K
+        elif s.K >= 2:
+            ini[..., 1, :] = ini[..., 0, :]
+            ini = ini / ini.sum(-2, keepdims=True)
+        if s.mask is not None:
+            ini = np.where(s.mask, ini, 0.0)
+            tot = ini.sum(-2, keepdims=True)
+            ini = ini / np.where(tot > 0, tot, 1.0)
+        s.init = ini
     kind = s.kind
     rng = np.random.default_rng([*case['rs'], 55])
     if neardup and s.K >= 2:
